@@ -4,9 +4,15 @@ Gen/Sql.vos Gen/Sql.vok Gen/Sql.required_vos: Gen/Sql.v
 Gen/Status.vo Gen/Status.glob Gen/Status.v.beautified Gen/Status.required_vo: Gen/Status.v 
 Gen/Status.vio: Gen/Status.v 
 Gen/Status.vos Gen/Status.vok Gen/Status.required_vos: Gen/Status.v 
+Gen/Flow.vo Gen/Flow.glob Gen/Flow.v.beautified Gen/Flow.required_vo: Gen/Flow.v 
+Gen/Flow.vio: Gen/Flow.v 
+Gen/Flow.vos Gen/Flow.vok Gen/Flow.required_vos: Gen/Flow.v 
 Spec/SqlRef.vo Spec/SqlRef.glob Spec/SqlRef.v.beautified Spec/SqlRef.required_vo: Spec/SqlRef.v 
 Spec/SqlRef.vio: Spec/SqlRef.v 
 Spec/SqlRef.vos Spec/SqlRef.vok Spec/SqlRef.required_vos: Spec/SqlRef.v 
+Spec/FlowRef.vo Spec/FlowRef.glob Spec/FlowRef.v.beautified Spec/FlowRef.required_vo: Spec/FlowRef.v 
+Spec/FlowRef.vio: Spec/FlowRef.v 
+Spec/FlowRef.vos Spec/FlowRef.vok Spec/FlowRef.required_vos: Spec/FlowRef.v 
 Spec/Dialect.vo Spec/Dialect.glob Spec/Dialect.v.beautified Spec/Dialect.required_vo: Spec/Dialect.v 
 Spec/Dialect.vio: Spec/Dialect.v 
 Spec/Dialect.vos Spec/Dialect.vok Spec/Dialect.required_vos: Spec/Dialect.v 
@@ -34,6 +40,9 @@ Model/Coro.vos Model/Coro.vok Model/Coro.required_vos: Model/Coro.v Model/Store.
 Model/Valid.vo Model/Valid.glob Model/Valid.v.beautified Model/Valid.required_vo: Model/Valid.v Model/Coro.vo
 Model/Valid.vio: Model/Valid.v Model/Coro.vio
 Model/Valid.vos Model/Valid.vok Model/Valid.required_vos: Model/Valid.v Model/Coro.vos
+Model/Equiv.vo Model/Equiv.glob Model/Equiv.v.beautified Model/Equiv.required_vo: Model/Equiv.v Model/Valid.vo
+Model/Equiv.vio: Model/Equiv.v Model/Valid.vio
+Model/Equiv.vos Model/Equiv.vok Model/Equiv.required_vos: Model/Equiv.v Model/Valid.vos
 Model/Sys.vo Model/Sys.glob Model/Sys.v.beautified Model/Sys.required_vo: Model/Sys.v Model/Coro.vo
 Model/Sys.vio: Model/Sys.v Model/Coro.vio
 Model/Sys.vos Model/Sys.vok Model/Sys.required_vos: Model/Sys.v Model/Coro.vos
@@ -157,6 +166,9 @@ Proofs/PC02.vos Proofs/PC02.vok Proofs/PC02.required_vos: Proofs/PC02.v Model/Mo
 Proofs/PC13.vo Proofs/PC13.glob Proofs/PC13.v.beautified Proofs/PC13.required_vo: Proofs/PC13.v Model/Mon.vo Model/Valid.vo Proofs/Discipline.vo Proofs/SysInv.vo
 Proofs/PC13.vio: Proofs/PC13.v Model/Mon.vio Model/Valid.vio Proofs/Discipline.vio Proofs/SysInv.vio
 Proofs/PC13.vos Proofs/PC13.vok Proofs/PC13.required_vos: Proofs/PC13.v Model/Mon.vos Model/Valid.vos Proofs/Discipline.vos Proofs/SysInv.vos
+Proofs/PC15.vo Proofs/PC15.glob Proofs/PC15.v.beautified Proofs/PC15.required_vo: Proofs/PC15.v Model/Equiv.vo
+Proofs/PC15.vio: Proofs/PC15.v Model/Equiv.vio
+Proofs/PC15.vos Proofs/PC15.vok Proofs/PC15.required_vos: Proofs/PC15.v Model/Equiv.vos
 Props/C09.vo Props/C09.glob Props/C09.v.beautified Props/C09.required_vo: Props/C09.v Model/Mon.vo Model/MonC09.vo Proofs/StoreLocks.vo Proofs/Discipline.vo Proofs/SysInv.vo Proofs/PC09.vo
 Props/C09.vio: Props/C09.v Model/Mon.vio Model/MonC09.vio Proofs/StoreLocks.vio Proofs/Discipline.vio Proofs/SysInv.vio Proofs/PC09.vio
 Props/C09.vos Props/C09.vok Props/C09.required_vos: Props/C09.v Model/Mon.vos Model/MonC09.vos Proofs/StoreLocks.vos Proofs/Discipline.vos Proofs/SysInv.vos Proofs/PC09.vos
@@ -211,9 +223,9 @@ Props/C02.vos Props/C02.vok Props/C02.required_vos: Props/C02.v Model/Mon.vos Mo
 Props/C13.vo Props/C13.glob Props/C13.v.beautified Props/C13.required_vo: Props/C13.v Model/Mon.vo Model/MonC13.vo Model/Valid.vo Model/Route.vo Proofs/Discipline.vo Proofs/SysInv.vo Proofs/PC13.vo
 Props/C13.vio: Props/C13.v Model/Mon.vio Model/MonC13.vio Model/Valid.vio Model/Route.vio Proofs/Discipline.vio Proofs/SysInv.vio Proofs/PC13.vio
 Props/C13.vos Props/C13.vok Props/C13.required_vos: Props/C13.v Model/Mon.vos Model/MonC13.vos Model/Valid.vos Model/Route.vos Proofs/Discipline.vos Proofs/SysInv.vos Proofs/PC13.vos
-Props/C15.vo Props/C15.glob Props/C15.v.beautified Props/C15.required_vo: Props/C15.v Gen/Status.vo Spec/Front15.vo Model/Coro.vo
-Props/C15.vio: Props/C15.v Gen/Status.vio Spec/Front15.vio Model/Coro.vio
-Props/C15.vos Props/C15.vok Props/C15.required_vos: Props/C15.v Gen/Status.vos Spec/Front15.vos Model/Coro.vos
-Props/C17.vo Props/C17.glob Props/C17.v.beautified Props/C17.required_vo: Props/C17.v Gen/Sql.vo Spec/SqlRef.vo Spec/Dialect.vo
-Props/C17.vio: Props/C17.v Gen/Sql.vio Spec/SqlRef.vio Spec/Dialect.vio
-Props/C17.vos Props/C17.vok Props/C17.required_vos: Props/C17.v Gen/Sql.vos Spec/SqlRef.vos Spec/Dialect.vos
+Props/C15.vo Props/C15.glob Props/C15.v.beautified Props/C15.required_vo: Props/C15.v Gen/Status.vo Spec/Front15.vo Model/Coro.vo Model/Equiv.vo Proofs/PC15.vo
+Props/C15.vio: Props/C15.v Gen/Status.vio Spec/Front15.vio Model/Coro.vio Model/Equiv.vio Proofs/PC15.vio
+Props/C15.vos Props/C15.vok Props/C15.required_vos: Props/C15.v Gen/Status.vos Spec/Front15.vos Model/Coro.vos Model/Equiv.vos Proofs/PC15.vos
+Props/C17.vo Props/C17.glob Props/C17.v.beautified Props/C17.required_vo: Props/C17.v Gen/Sql.vo Gen/Flow.vo Spec/SqlRef.vo Spec/FlowRef.vo Spec/Dialect.vo
+Props/C17.vio: Props/C17.v Gen/Sql.vio Gen/Flow.vio Spec/SqlRef.vio Spec/FlowRef.vio Spec/Dialect.vio
+Props/C17.vos Props/C17.vok Props/C17.required_vos: Props/C17.v Gen/Sql.vos Gen/Flow.vos Spec/SqlRef.vos Spec/FlowRef.vos Spec/Dialect.vos
